@@ -634,7 +634,7 @@ func init() {
 			}
 			n := 600
 			if !quick(tier) {
-				n = 20000
+				n = 120000
 			}
 			for i := 0; i < n; i++ {
 				cs = append(cs, Case{Kind: "rnd", Seed: h.Mix(seed, 0xC19, uint64(i))})
